@@ -11,7 +11,7 @@ the 1-D reflection, get_1d_signature agrees with to1d.
 import itertools
 
 from .. import arr as A
-from ..poly import Poly, as_poly, sym_id
+from ..poly import Poly, as_poly, sym_id, pk
 from ..report import Finding
 from .common import *
 from .c02 import group, spec_action, matmul
@@ -31,7 +31,7 @@ class InnerModel(object):
     def __call__(self, x, aux=None):
         self.n_calls += 1
         MI = self.it.get_module(GEOM).MultiImage
-        key = tuple((t, x[t].shape, tuple(as_poly(e).key() for e in x[t].elems)) for t in sorted(x.keys()))
+        key = tuple((t, x[t].shape, tuple(pk(e) for e in x[t].elems)) for t in sorted(x.keys()))
         kid = sym_id(("appkey", key))
         sp = x.get_spatial_dims() if self.spatial_of is None else self.spatial_of
         blocks = {}
